@@ -130,6 +130,21 @@ class Ctx:
         {'crash': ...}; exceptions as {'exc': name}."""
         return run_worker(self, cases, fn, per_case_stall)
 
+    def run_staged_python(self, code, timeout=600, args=()):
+        """Run a Python snippet against the staged package (for translators that need values the
+        code computes, e.g. lookup tables).  Returns stdout; raises on failure (fail-closed)."""
+        env = dict(os.environ)
+        env.update({"PYTHONPATH": self.scratch + os.pathsep + VERIF, "PYTHONHASHSEED": "0", GUARD: "1",
+                    "VERIF_STAGE": self.scratch, "MPLBACKEND": "Agg"})
+        r = subprocess.run([PY, "-c", code] + list(args), env=env, capture_output=True, text=True, timeout=timeout)
+        if r.returncode != 0:
+            raise RuntimeError("staged python failed: " + r.stderr[-1500:])
+        return r.stdout
+
+    def staged_source(self, relpath):
+        with open(os.path.join(self.scratch, relpath), encoding="utf-8") as f:
+            return f.read()
+
     # -- model side ----------------------------------------------------------------------
     def run_model(self, entry, args):
         """args: list of python values (nested ints).  Returns list of parsed sx results."""
